@@ -1,4 +1,5 @@
 import HabuVerif.Core.Toy
+import HabuVerif.Drv.IniDrv
 /-!
 Line-protocol driver: the correspondence harness pipes operations in, the model's answers come
 out, one canonical line each.  Imports model files only (no Mathlib), so it can be compiled.
@@ -142,8 +143,10 @@ partial def loop (h : IO.FS.Stream) (out : IO.FS.Stream) (m : Mode) : IO Unit :=
     let names := ((l.dropEndWhile (fun c => c = '\n' || c = '\r')).toString.splitOn " ").filter (· ≠ "")
     out.putStrLn (joinWith " " (SortKeys.naturalSort names))
     loop h out .idle
-  | .idle, _ => do
-    out.putStrLn "bad-op"
+  | .idle, l => do
+    -- stateless streams: `<stream> <op...>`
+    if l.startsWith "ini " then out.putStrLn (IniDrv.step (l.drop 4).toString)
+    else out.putStrLn "bad-op"
     loop h out .idle
 
 def main : IO Unit := do
